@@ -239,3 +239,10 @@ Proof.
   intros vs lay H. induction H as [|v o vs lay Ho _ IH]; constructor; [|exact IH]. exact (proj1 Ho).
 Qed.
 Print Assumptions lay_wf_nodup.
+
+(* norm: the function Table.norm hands over and the axis it passes on are regenerated too (norm_gen); its
+   call of transform goes to the vocabulary's rational-valued counterpart (Gen/WrapPrelude.v tb_transform_q).
+   Unconditional. *)
+Theorem norm_is_source : forall lay a inplace t, norm_gen lay t a inplace = norm_vecs a lay t.
+Proof. exact norm_bridge. Qed.
+Print Assumptions norm_is_source.
